@@ -78,8 +78,10 @@ package sts
 //@   modifies nothing
 //@ interface FileSource.GetOpener trusted
 //@   modifies nothing
+// refines: (*cache.cacheFile).IsDone/ensures (proved in package cache)
 //@ interface Cached.IsDone trusted
 //@   modifies nothing
+//@   ensures typeis(self, *cache.cacheFile) ==> r0 == as(self, *cache.cacheFile).Done
 
 // T: the allocation cursor of a Binnable is its own state; AddAlloc touches nothing a payload reads
 //@ interface Binnable.GetNextAlloc trusted
